@@ -1208,6 +1208,15 @@ private:
                            ts, (read_result.new_capacity / 1024),
                            (read_result.previous_capacity / 1024), thread_context->thread_id()));
       }
+
+      if (QUILL_UNLIKELY(read_result.read_pos == nullptr))
+      {
+        // We moved to the next buffer and found it empty. The producer can already be past it, e.g. a
+        // buffer created by shrink_thread_local_queue() followed by a message that did not fit in it.
+        // Look again, otherwise messages that are already committed to a later buffer are missed in
+        // this pass while newer messages of other threads are processed, breaking the timestamp order
+        return _read_unbounded_frontend_queue(frontend_queue, thread_context);
+      }
     }
 
     return read_result.read_pos;
